@@ -7,6 +7,9 @@ props = [json.loads(l) for l in open(os.path.join(ROOT, 'properties.jsonl'))]
 
 # id -> (technique, level text, level note, design ref)
 CHECKS = {
+ 'C04': ('runtime monitor: membership oracle over generated histories - live elements vs single-field/proof mutants, spent, reverted-branch and fabricated elements, through all three library routes',
+         'On generated chains with reorgs, samples of live elements of every kind must pass ValidateTransactionElements, a fully signed ValidateV2Transaction spend/expiration and ValidateBlock\'s supplement check; every single-field mutation of contents, leaf index and proof (incl. another element\'s proof/position, shortened/lengthened proofs), spent/resolved elements with proofs maintained by the store, elements remembered from reverted branches and fabricated elements must be rejected by each route. Complemented by C05\'s naive-forest comparison.',
+         'Trusted: the carrier block of the supplement route; the re-signed spend of the transaction route.', '§5 C04'),
  'C02': ('runtime monitor: exactly-once trace checker over the spent/resolved/created ID stream + second-use fault injection into accepted blocks (re-signed, re-sealed) judged by the real ValidateBlock',
          'On generated chains every ApplyUpdate/RevertUpdate feeds a spent-set and created-set checker (no ID used twice without an intervening revert); every accepted block is turned into all applicable second-use variants (28 classes: within a txn, across txns v1/v2/mixed, ephemeral outputs, storage proofs, v2 resolutions/revisions after resolution, cross-block re-spend with a proof maintained since before the first use, stale element in the supplement) whose only fault is the second use; each must be rejected by the rule that concerns double use (other rejections are counted inconclusive).',
          'Trusted: the variant builder (re-balances values, re-signs, re-seals); the accepted original block is the positive control.', '§5 C02'),
